@@ -61,7 +61,12 @@ func GenFragment(r *rng.R) *scen.Scenario {
 	for i, n := 0, r.Range(1, 5); i < n; i++ {
 		ns := rng.Pick(r, nsPool)
 		var prs []gatewayv1.ParentReference
-		switch k := r.Intn(10); {
+		switch k := r.Intn(12); {
+		case k >= 10:
+			// parentRef WITHOUT namespace: defaults to the Route's own namespace — attaches when the Route lives in
+			// the Gateway's namespace, names a non-existing Gateway <route-ns>/gw otherwise (must stay unattached)
+			prs = append(prs, p.ParentRef("", "gw", ""))
+			s.Tags["parentref-without-namespace"]++
 		case k < 5:
 			prs = append(prs, p.ParentRef(gwNS, "gw", ""))
 		case k < 8:
@@ -134,6 +139,16 @@ func GenFragment(r *rng.R) *scen.Scenario {
 						be.Ref = rng.Pick(r, []string{"no-such-svc", "team-b/svc0"})
 					}
 					rule.BackendRefs = append(rule.BackendRefs, gatewayv1.HTTPBackendRef{BackendRef: p.BackendRef(be)})
+				}
+				if r.Chance(8, 100) {
+					// a switched-off canary: weights that leave a rounding remainder, and a zero-weight backend listed LAST
+					// (it must get no share at all)
+					rule.BackendRefs = nil
+					for a, w := range rng.Pick(r, [][]int32{{1, 1, 1, 0}, {1, 2, 0}, {3, 3, 1, 0}}) {
+						be := p.Backend{Ref: fmt.Sprintf("svc%d", a%3), Port: 80, Weight: w}
+						rule.BackendRefs = append(rule.BackendRefs, gatewayv1.HTTPBackendRef{BackendRef: p.BackendRef(be)})
+					}
+					s.Tags["zero-weight-backend-last"]++
 				}
 			}
 			rules = append(rules, rule)
